@@ -556,7 +556,7 @@ func (k Keeper) cancelMMOrder(ctx sdk.Context, appID uint64, orderer sdk.AccAddr
 	index, found := k.GetMMOrderIndex(ctx, orderer, appID, pair.Id)
 	if found {
 		for _, orderID := range index.OrderIds {
-			order, found := k.GetOrder(ctx, pair.Id, appID, orderID)
+			order, found := k.GetOrder(ctx, appID, pair.Id, orderID)
 			if !found {
 				// The order has already been deleted from store.
 				continue
